@@ -252,8 +252,18 @@ class LayoutScenario(explore.Scenario):
         except Exception as e:  # noqa
             import traceback
 
-            return [("C05/edit-raises:%s:%s" % (kind, type(e).__name__),
-                     traceback.format_exc()[-400:])]
+            # a legal edit that raises is a finding of the properties that
+            # own the operation: the collection semantics (C04, C16) for
+            # moves and set operations, the index property for attribute
+            # edits and lookups
+            owners = {
+                "koff": ("C05", "C12"), "ksize": ("C05", "C12"),
+                "baddr": ("C06", "C05", "C12"), "bsize": ("C06", "C12"),
+                "lookup": ("C05", "C06", "C12"),
+                "save_load": ("C01",),
+            }.get(kind, ("C04", "C16"))
+            return [("%s/edit-raises:%s:%s" % (p_, kind, type(e).__name__),
+                     traceback.format_exc()[-400:]) for p_ in owners]
         return []
 
     # ------------------------------------------------------- public snapshot
